@@ -175,6 +175,28 @@ func (d *FormatDecoder) readString(hdr FormatHeader, fixed uint64) (string, erro
 	return string(b[:len(b)-1]), nil
 }
 
+// exactReader returns io.ErrUnexpectedEOF if the underlying stream ends before n
+// bytes were delivered.
+type exactReader struct {
+	r io.Reader
+	n uint64
+}
+
+func (e *exactReader) Read(p []byte) (int, error) {
+	if e.n == 0 {
+		return 0, io.EOF
+	}
+	if uint64(len(p)) > e.n {
+		p = p[:e.n]
+	}
+	n, err := e.r.Read(p)
+	e.n -= uint64(n)
+	if err == io.EOF && e.n > 0 {
+		err = io.ErrUnexpectedEOF
+	}
+	return n, err
+}
+
 // Next returns the next format element from the stream. If an element
 // contains a reader, that reader should be used before any subsequent calls as
 // it'll be invalidated then. Returns nil when the end is reached.
@@ -182,8 +204,11 @@ func (d *FormatDecoder) Next() (interface{}, error) {
 	// If we previously returned a reader, make sure we advance all the way in
 	// case the caller didn't read it all.
 	if d.advance != nil {
-		io.Copy(ioutil.Discard, d.advance)
+		_, err := io.Copy(ioutil.Discard, d.advance)
 		d.advance = nil
+		if err != nil {
+			return nil, err
+		}
 	}
 	hdr, err := d.r.ReadHeader()
 	if err != nil {
@@ -286,8 +311,11 @@ func (d *FormatDecoder) Next() (interface{}, error) {
 		return e, nil
 
 	case CaFormatPayload:
+		if hdr.Size < 16 {
+			return nil, InvalidFormat{}
+		}
 		size := hdr.Size - 16
-		r := io.LimitReader(d.r, int64(size))
+		r := &exactReader{r: d.r, n: size}
 		// Record the reader to be read fully on the next iteration if the caller
 		// didn't do it
 		d.advance = r
@@ -339,6 +367,9 @@ func (d *FormatDecoder) Next() (interface{}, error) {
 		return e, nil
 
 	case CaFormatACLGroupObj:
+		if hdr.Size != 24 {
+			return nil, InvalidFormat{}
+		}
 		e := FormatACLGroupObj{FormatHeader: hdr}
 		e.Permissions, err = d.r.ReadUint64()
 		if err != nil {
@@ -347,6 +378,9 @@ func (d *FormatDecoder) Next() (interface{}, error) {
 		return e, nil
 
 	case CaFormatACLDefault:
+		if hdr.Size != 48 {
+			return nil, InvalidFormat{}
+		}
 		e := FormatACLDefault{FormatHeader: hdr}
 		e.UserObjPermissions, err = d.r.ReadUint64()
 		if err != nil {
@@ -394,6 +428,9 @@ func (d *FormatDecoder) Next() (interface{}, error) {
 		return FormatGoodbye{FormatHeader: hdr, Items: items}, nil
 
 	case CaFormatIndex:
+		if hdr.Size != 48 {
+			return nil, InvalidFormat{}
+		}
 		e := FormatIndex{FormatHeader: hdr}
 		e.FeatureFlags, err = d.r.ReadUint64()
 		if err != nil {
